@@ -3,6 +3,7 @@ package vuego
 import (
 	"io"
 	"io/fs"
+	"strconv"
 	"sync"
 	"time"
 
@@ -89,6 +90,9 @@ func (v *Vue) renderNodesWithContext(ctx VueContext, w io.Writer, nodes []*html.
 		nodeCopy = append(nodeCopy, helpers.DeepCloneNode(nodes[i]))
 	}
 
+	// Assign IDs to the v-once elements of this render's private copy
+	assignSeenAttrs(ctx.FromFilename, nodeCopy)
+
 	if err := v.preProcessNodes(ctx, nodeCopy); err != nil {
 		return err
 	}
@@ -150,11 +154,6 @@ func (v *Vue) Render(w io.Writer, filename string, data any) error {
 		Processors: v.nodeProcessors,
 	})
 
-	// Assign unique IDs to all v-once elements for tracking across deep clones
-	for _, node := range dom {
-		assignSeenAttrs(&vueCtx, node)
-	}
-
 	// Use renderNodesWithContext with pre-configured context
 	return v.renderNodesWithContext(vueCtx, w, dom)
 }
@@ -205,16 +204,26 @@ func (v *Vue) loadCachedWithFrontMatter(filename string) (map[string]any, []*htm
 	return frontMatter, dom, nil
 }
 
-// assignSeenAttrs recursively assigns unique IDs to all v-once elements in the tree
-func assignSeenAttrs(ctx *VueContext, node *html.Node) {
-	if node.Type == html.ElementNode {
-		if helpers.HasAttr(node, "v-once") {
-			id := ctx.nextSeenID()
-			helpers.SetAttr(node, "v-once-id", id)
+// assignSeenAttrs assigns an ID to every v-once element of a template's private DOM
+// (a deep clone or a fresh parse result, never nodes shared through the cache).
+// The ID is derived from the template name and the element's position in the
+// document, so every instantiation of one element - loop iterations, repeated
+// includes of its component - carries the same ID, distinct elements carry
+// distinct IDs, and nothing depends on the clock.
+func assignSeenAttrs(name string, nodes []*html.Node) {
+	counter := 0
+	var walk func(node *html.Node)
+	walk = func(node *html.Node) {
+		if node.Type == html.ElementNode && helpers.HasAttr(node, "v-once") {
+			helpers.SetAttr(node, "v-once-id", name+"#"+strconv.Itoa(counter))
+			counter++
+		}
+		for c := node.FirstChild; c != nil; c = c.NextSibling {
+			walk(c)
 		}
 	}
-	for c := node.FirstChild; c != nil; c = c.NextSibling {
-		assignSeenAttrs(ctx, c)
+	for _, node := range nodes {
+		walk(node)
 	}
 }
 
@@ -248,11 +257,6 @@ func (v *Vue) RenderFragment(w io.Writer, filename string, data any) error {
 		Stack:      NewStackWithData(dataMap, data),
 		Processors: v.nodeProcessors,
 	})
-
-	// Assign unique IDs to all v-once elements for tracking across deep clones
-	for _, node := range dom {
-		assignSeenAttrs(&vueCtx, node)
-	}
 
 	// Use RenderNodes with pre-configured context
 	return v.renderNodesWithContext(vueCtx, w, dom)
